@@ -5,6 +5,7 @@ pub mod c04;
 pub mod c05;
 pub mod c06;
 pub mod c07;
+pub mod c08;
 pub mod c09;
 pub mod c10;
 pub mod c11;
@@ -24,6 +25,7 @@ pub fn lookup(id: &str) -> Option<(&'static PropSpec, fn(&RunCfg) -> Report)> {
         "C05" => (&c05::SPEC, c05::run as fn(&RunCfg) -> Report),
         "C06" => (&c06::SPEC, c06::run as fn(&RunCfg) -> Report),
         "C07" => (&c07::SPEC, c07::run as fn(&RunCfg) -> Report),
+        "C08" => (&c08::SPEC, c08::run as fn(&RunCfg) -> Report),
         "C09" => (&c09::SPEC, c09::run as fn(&RunCfg) -> Report),
         "C10" => (&c10::SPEC, c10::run as fn(&RunCfg) -> Report),
         "C11" => (&c11::SPEC, c11::run as fn(&RunCfg) -> Report),
